@@ -179,6 +179,9 @@ def gen_strings(quick):
             chunk = [b for b in range(lo, min(lo + 50, 256)) if b != 34]
             yield ("str-%d" % lo, d, 7, prog(d, [(10, [0xF1, 34] + chunk + [34]), (20, [0xF1, 34, 34, 34, 65, 34]), (30, [0xF4, 34, 0x80])]))
         yield ("str-open", d, 7, prog(d, [(10, [0xF1, 34, 0x80, 0x8D, 0xC6]), (20, [0x80])]))
+        # a NUL byte is never part of a program, not even inside a string: rejected, in every build configuration
+        yield ("str-nul", d, 7, prog(d, [(10, [0xF1, 34, 65, 0, 66, 34]), (20, [0xF1, 34, 67, 34])]))
+        yield ("nul-outside", d, 7, prog(d, [(10, [0xF1, 65, 0, 66]), (20, [0xF1, 34, 67, 34])]))
     for d in ("6502", "Z80"):
         for n in list(range(0, 252, 1 if not quick else 9)) + [250, 251]:
             if n <= 251:
